@@ -300,6 +300,13 @@ def batch_facts(prog: Program, r: DispatcherRoles) -> Tuple[Dict[str, Any], List
             single_calls.append((n, c))
     facts['batch_call_sites'] = len(batch_calls)
     facts['single_call_sites'] = len(single_calls)
+    for x in walk_own(f.node):
+        if isinstance(x, ast.Call) and dotted(x.func) in (f'self.{r.handle_request.name}', f'self.{r.handle_rpc_request.name}',
+                                                         f'self.{r.handle_rpc_method.name}'):
+            problems.append(('SAME-CHAIN', 'dispatch calls the handler directly, bypassing the middleware chain', x.lineno,
+                             f'`{norm(x)[:80]}` bypasses self.{r.slot}: the request would not pass through the configured middlewares'))
+    if problems and (not batch_calls or not single_calls):
+        return facts, problems
     if not batch_calls or not single_calls:
         raise AnalysisError(f'{f.qualname}: expected a per-element call site and a single-request call site of self.{r.slot}')
     # ORDER-MAP: nothing order-destroying between the element calls and the batch response
@@ -628,3 +635,198 @@ def _noleak(prog: Program, f: FuncInfo, cfg: CFG, h: Node, body: List[Node]) -> 
                                 f'`{norm(c)[:80]}` puts information about the caught exception into the error sent to the client; '
                                 f'nothing about an unexpected exception may appear in the response'))
     return out
+
+
+# ----------------------------------------------------------------------------------------------
+# middlewares and error handlers (C12)
+# ----------------------------------------------------------------------------------------------
+
+def mw_fold_facts(prog: Program, r: DispatcherRoles) -> Tuple[Dict[str, Any], List[Problem]]:
+    f = r.init
+    prov = Prov(prog)
+    problems: List[Problem] = []
+    facts: Dict[str, Any] = {}
+    cfg = CFG(f, prog)
+    slot = f'self.{r.slot}'
+    init_assign = None
+    loops = []
+    for n in cfg.stmt_nodes():
+        a = n.ast
+        if n.kind == 'stmt' and isinstance(a, ast.Assign) and len(a.targets) == 1 and dotted(a.targets[0]) == slot:
+            in_loop = [m for m in cfg.nodes if m.kind == 'next' and n.id in cfg.reachable(m, edge_ok=lambda e: e.label != 'exhausted')
+                       and m.id in cfg.reachable(n)]
+            if in_loop:
+                loops.append((in_loop[0], n))
+            else:
+                init_assign = n
+    if init_assign is None:
+        raise AnalysisError(f'{f.qualname}: initial assignment of {slot} not found')
+    base = dotted(init_assign.ast.value)
+    facts['base'] = 'own per-element handler' if base == f'self.{r.handle_request.name}' else str(base)
+    if base != f'self.{r.handle_request.name}':
+        problems.append(('MW-FOLD', 'chain does not start from the own per-element handler', init_assign.line,
+                         f'{slot} is initialised with `{base}`, not with the dispatcher\'s own per-element handler'))
+    if len(loops) != 1:
+        # functools.reduce form?
+        raise AnalysisError(f'{f.qualname}: expected one fold loop assigning {slot} (recognised form: for m in reversed(middlewares): '
+                            f'{slot} = partial(m, handler={slot})), found {len(loops)}')
+    head, body = loops[0]
+    it = head.ast.iter
+    rev = isinstance(it, ast.Call) and dotted(it.func) == 'reversed' and len(it.args) == 1
+    src_expr = it.args[0] if rev else it
+    org = prov.origins(src_expr, f)
+    from_mw = any(o[0] == 'param' and o[3] == 'middlewares' for o in org) or \
+        any(o[0] == 'param' and 'middleware' in o[3] for o in org)
+    facts['iter'] = ('reversed(' if rev else '(') + ('middlewares' if from_mw else norm(src_expr)) + ')'
+    if not from_mw:
+        problems.append(('MW-FOLD', 'fold does not iterate the configured middlewares', head.line,
+                         f'the chain is folded over `{norm(it)}`, which is not the `middlewares` constructor argument'))
+    # order: reversed iteration + wrapping the previous chain ⇒ first-declared outermost
+    slicing_rev = isinstance(it, ast.Subscript) and isinstance(it.slice, ast.Slice) and it.slice.step is not None and norm(it.slice.step) == '-1'
+    if not rev and not slicing_rev:
+        problems.append(('MW-FOLD', 'middlewares folded in declaration order', head.line,
+                         f'the chain is built by wrapping over `{norm(it)}` in declaration order: the LAST middleware becomes the '
+                         f'outermost one; the first-declared middleware must be outermost (iterate in reverse)'))
+    v = body.ast.value
+    target = dotted(head.ast.target)
+    ok_partial = isinstance(v, ast.Call) and dotted(v.func) in ('ft.partial', 'functools.partial', 'partial') and v.args and \
+        dotted(v.args[0]) == target
+    hk = kwarg(v, 'handler') if isinstance(v, ast.Call) else None
+    facts['wrap'] = 'partial(<mw>, handler=<chain>)' if ok_partial and hk is not None and dotted(hk) == slot else norm(v)[:80]
+    if not ok_partial:
+        problems.append(('MW-FOLD', 'fold step is not partial(middleware, …)', body.line,
+                         f'`{norm(body.ast)}` does not wrap the iteration element `{target}` as the new outer layer'))
+    elif hk is None or dotted(hk) != slot:
+        problems.append(('MW-FOLD', 'middleware does not receive the rest of the chain', body.line,
+                         f'`{norm(body.ast)}`: the `handler` handed to the middleware must be the chain built so far ({slot})'))
+    if ok_partial and (len(v.args) > 1 or any(kw.arg not in ('handler',) for kw in v.keywords)):
+        problems.append(('MW-FOLD', 'extra arguments pre-bound to the middleware', body.line,
+                         f'`{norm(v)}` pre-binds more than the handler: the middleware would not receive (request, context) as passed'))
+    return facts, problems
+
+
+def eh_fold_facts(prog: Program, interp: Interp, r: DispatcherRoles) -> Tuple[Dict[str, Any], List[Problem]]:
+    f = r.handle_request
+    prov = Prov(prog)
+    problems: List[Problem] = []
+    facts: Dict[str, Any] = {}
+    res = interp.analyze(f, {EMPTY_ENV}, recv=r.cls.qualname)
+    cfg = res.cfg
+    ty = types_of(prog)
+    sc = FuncScope(f, ty)
+    loops = []
+    for n in cfg.nodes:
+        if n.kind == 'next':
+            org = prov.origins(n.ast.iter, f)
+            if any(o[0] == 'param' and 'error_handler' in o[3] for o in org):
+                loops.append(n)
+    facts['handler_loops'] = len(loops)
+    if len(loops) != 1:
+        if not loops:
+            problems.append(('EH-FOLD', 'error handlers are never run', f.node.lineno,
+                             f'{short(f.qualname)} does not iterate the configured error handlers'))
+            return facts, problems
+        raise AnalysisError(f'{f.qualname}: {len(loops)} loops over error handlers (recognised form: one loop over chain(generic, per-code))')
+    head = loops[0]
+    it = head.ast.iter
+    # the error variable: third argument of the handler call in the loop body
+    body_nodes = [n for n in cfg.stmt_nodes() if n.id in cfg.reachable(head, edge_ok=lambda e: e.label != 'exhausted')
+                  and head.id in cfg.reachable(n)]
+    calls = []
+    for n in body_nodes:
+        for c in calls_in(n):
+            if isinstance(c.func, ast.Name) and c.func.id == dotted(head.ast.target):
+                calls.append((n, c))
+    if len(calls) != 1:
+        problems.append(('EH-FOLD', f'{len(calls)} handler calls per iteration', head.line,
+                         f'each error handler must be called exactly once per failing request; the loop body calls it {len(calls)} times'))
+        return facts, problems
+    n, c = calls[0]
+    args = [dotted(a) for a in c.args]
+    err_var = args[2] if len(args) > 2 else None
+    facts['call_args'] = ['<request>' if a == f.params[1].arg else '<context>' if a == f.params[2].arg else '<error>' if a == err_var else str(a)
+                          for a in args]
+    if len(args) != 3 or args[0] != f.params[1].arg or args[1] != f.params[2].arg or err_var is None:
+        problems.append(('EH-FOLD', 'handler not called with (request, context, error)', n.line,
+                         f'`{norm(c)}` does not pass the request, the context and the current error'))
+        return facts, problems
+    assigns = assigned_names(n)
+    if err_var not in assigns:
+        problems.append(('EH-FOLD', 'handler result is dropped', n.line,
+                         f'`{norm(n.ast)[:80]}`: the error returned by a handler must replace `{err_var}` so that the next handler and '
+                         f'the response receive it'))
+    # iteration source: chain(generic, per-code) evaluated once
+    order = []
+    if isinstance(it, ast.Call) and dotted(it.func) in ('it.chain', 'itertools.chain', 'chain'):
+        for a in it.args:
+            order.append(_eh_key(a, err_var))
+    else:
+        order.append(_eh_key(it, err_var))
+    facts['order'] = order
+    if order != ['generic', 'per-code']:
+        problems.append(('EH-FOLD', f'handler order {order}', head.line,
+                         f'error handlers must run generic first, then those registered for the raised error\'s code, in list order; '
+                         f'found `{norm(it)[:100]}` = {order}'))
+    # the folded variable is what is sent
+    sent_ok = False
+    for rc in response_ctor_calls(prog, f):
+        ev = kwarg(rc, 'error')
+        if ev is not None and dotted(ev) == err_var:
+            rn = None
+            for m in cfg.stmt_nodes():
+                if any(y is rc for frag in node_exprs(m) for y in ast.walk(frag)):
+                    rn = m
+            if rn is not None and rn.id in cfg.reachable(head):
+                sent_ok = True
+    facts['sent'] = sent_ok
+    if not sent_ok:
+        problems.append(('EH-FOLD', 'the error sent is not the last handler result', f.node.lineno,
+                         f'the response built after the handler loop does not carry `{err_var}` (the error returned by the last handler)'))
+    # EH-REACH: only on failure paths; not skipped for notifications
+    handlers = [h for h in cfg.nodes if h.kind == 'handler']
+    it_node = [m for m in cfg.nodes if m.kind == 'iter' and m.ast is head.ast.iter]
+    start = it_node[0] if it_node else head
+    if start.id in cfg.reachable(cfg.entry, avoid_nodes=handlers):
+        problems.append(('EH-REACH', 'error handlers reachable on the success path', start.line,
+                         'the error-handler loop can be reached without an exception having been caught: handlers must never run '
+                         'for successful requests'))
+    for h in handlers:
+        if start.id not in cfg.reachable(h):
+            problems.append(('EH-REACH', f'handlers skipped after except {"|".join(_sn(x) for x in h.caught)}', h.line,
+                             f'a failure caught by `except {"|".join(_sn(x) for x in h.caught)}` does not reach the error-handler loop'))
+    req = f.params[1].arg
+    for g in guard_edges(cfg, start):
+        t = is_notif_test(prog, f, g.src.ast, {req})
+        if t is not None:
+            problems.append(('EH-REACH', 'error handlers skipped for notifications', start.line,
+                             'the error-handler loop is guarded by the notification test: failing notifications must be handled too '
+                             '(only the reply is suppressed)'))
+    facts['reach'] = 'except-only'
+    return facts, problems
+
+
+def _eh_key(a: ast.expr, err_var: Optional[str]) -> str:
+    """Classify `handlers.get(None, [])` / `handlers.get(error.code, [])` / subscripts."""
+    key = None
+    if isinstance(a, ast.Call) and isinstance(a.func, ast.Attribute) and a.func.attr == 'get' and a.args:
+        key = a.args[0]
+    elif isinstance(a, ast.Subscript):
+        key = a.slice
+    if key is None:
+        return norm(a)[:40]
+    if isinstance(key, ast.Constant) and key.value is None:
+        return 'generic'
+    if err_var and dotted(key) == f'{err_var}.code':
+        return 'per-code'
+    return f'key:{norm(key)}'
+
+
+def rejection_facts(prog: Program, r: DispatcherRoles) -> Tuple[Dict[str, Any], List[Problem]]:
+    """Document-level rejection branches of dispatch: no error-handler / handler-chain call."""
+    f = r.dispatch
+    problems: List[Problem] = []
+    refs = [x for x in walk_own(f.node) if isinstance(x, ast.Attribute) and 'error_handler' in x.attr]
+    if refs:
+        problems.append(('EH-REACH', 'dispatch touches the error handlers', refs[0].lineno,
+                         'dispatch itself refers to the error handlers: handlers must not run for documents rejected before dispatch'))
+    return {'dispatch_refs_error_handlers': len(refs)}, problems
